@@ -913,7 +913,9 @@ from harness.vlib import coq_str, coq_z  # noqa: E402
 def in_coq(t: T, fam: Family, seen=None) -> bool:
     seen = seen or set()
     for n in t.walk():
-        if n.kind in ("union", "lit"):
+        if n.kind == "union":
+            return False
+        if n.kind == "lit" and not all(v is None or type(v) in (int, str, bool) for v in n.extra):
             return False
         if n.kind == "leaf" and n.name == "timezone":
             pass
@@ -957,6 +959,8 @@ def coq_sty(t: T) -> str:
         return "(STupleU [" + "; ".join(pre) + "] " + m + " [" + "; ".join(suf) + "])"
     if k == "dict":
         return f"(SDict {a[0]} {a[1]})"
+    if k == "lit":
+        return "(SLit [" + "; ".join(coq_pv(v) for v in t.extra) + "])"
     if k == "seq":
         return f"(SSeq {a[0]})"
     if k == "deque":
